@@ -202,6 +202,13 @@ func c19SfWorld(t *testing.T, tr *Trace, rng *Rng) {
 			}
 		case 4:
 			w.donate(w.acct(70), "uasset1", int64(rng.Range(1, 1000)))
+		case 5: // no oracle price for either side of pair 1: the distribution of the gauge's deposit errors, the epoch is not counted
+			w.setPrice(1, 0, false)
+			w.setPrice(2, 0, false)
+			tr.Count("sfworld:both-prices-off")
+		case 6:
+			w.setPrice(1, 1000000, true)
+			w.setPrice(2, 1000000, true)
 		}
 	}
 }
